@@ -18,6 +18,8 @@ def main(tier, seed):
     base += fam_tt.template_family(seed, tier, only=[t for t in fam_tt.TEMPLATES if t[0] in ('forced_preempt_in_defeat_fn', 'preempt_in_defeat_fn')])
     base += fam_tt.scope_family(seed, 6 if quick else 60, iters=(0, 2))
     base += families.examples(s=120, names={'hello', 'max', 'factor', 'optional_max'})
+    from hv import fam_seq
+    base += [it for it in fam_seq.misc(seed, tier) if it.w in (2, 3)]
     for w in ([3] if quick else [3, 4, 8]):
         base += families.generated(seed + w, 10 if quick else 60, w=w, inputs=2, family='gen_w%d' % w)
     # stack overflow is undefined behaviour in an unchecked build too: keep only cases whose CHECKED image runs
